@@ -33,7 +33,10 @@ def block_knob():
     parameter with an int default, ('attr', name) for an int class attribute the function reads, ('global', name) for
     an int module constant it reads; None when no such knob is visible (then only the natural block size is run)"""
     import inspect
+    import os
     import pydiffx.reader as R
+    if os.environ.get('SX_FORCE_SKIP_STEPS'):
+        return None
     f = getattr(R.DiffXReader, '_read_until', None)
     if f is not None:
         try:
